@@ -441,6 +441,80 @@ theorem unlocked_not_linearizable :
     raceObs (seqExec rrun {} [(1, .unregister 5), (0, .register 5 1 [[97], [98]])]).2 = (some 1, some 1, true) := by
   decide
 
+/-! ### the readers-writer lock.  The theorems above run on the machine that treats every bracket as exclusive.  The Go
+    code takes only the READ half of its `sync.RWMutex` in `Enabled()`, `BatchLevel()` and the ancestor walk of
+    `NotifyWithData` (`NtC.isRead`), so those brackets overlap in time.  `RW.exec sys isRead` (Model/RWMutex.lean) is the
+    machine in which they do: a read bracket is kept out only by a writer, a write bracket by anybody, the micro-steps
+    of several readers interleave under any scheduler.  (That the Go code makes no registry WRITE under the read half is
+    decided on every run about the source: `C17Lock.registry_accesses_locked`, `C17Lock.shared_brackets_read_only`.) -/
+
+/-- **linearizable under the readers-writer lock**: under EVERY schedule of the RW machine, in EVERY reachable
+    configuration — readers may be in the middle of their brackets —: whenever no writer is inside, the registry is that
+    of executing the brackets ONE AT A TIME with the sequential model in acquisition order; every goroutine that is
+    outside a bracket has received exactly the results this execution gives to its brackets (so an overlapping reader
+    never sees a half-done `Register`/`Unregister`, and two overlapping readers do not disturb each other); program
+    order is respected; and a writer is alone.  No "the lock is free" hypothesis is needed. -/
+theorem concurrent_registry_linearizable_rw (s₀ : NSt) (progs : Nat → List ROp) (sch : List Nat)
+    (c : RW.Config NSt ROp PC RRes) (he : RW.exec sys isRead (RW.init s₀ progs) sch = some c) :
+    (c.writer = none → c.shared = (seqExec rrun s₀ c.acq).2) ∧
+    (∀ t, (c.threads t).cur = none → (c.threads t).res = resOf t (seqExec rrun s₀ c.acq).1) ∧
+    (∀ t, opsOf t c.acq ++ (c.threads t).todo = progs t) ∧
+    (∀ t, c.writer = some t → c.readers = []) :=
+  RW.linearizable sys isRead rrun ROk runs_op readOnly_sys s₀ progs sch c he
+
+/-- **a `Notify` whose collection overlaps other readers still delivers one snapshot**: on the RW machine, if the
+    collection bracket of goroutine `t`'s `Notify(raw)` is at position `pre` of the acquisition order, then — whatever
+    overlapped it — (1) the registry state `sL` of the one-at-a-time execution at that position satisfies the registry
+    invariant, (2) the table the bracket handed to `t` is the one the sequential walk computes at `sL`, and (3) sorting
+    it (what `t` does after `RUnlock`) is the delivery list `Nt.notify sL raw` of the sequential model, about which
+    `notify_targets` / `notify_priority_order` / `no_textual_prefix` speak -/
+theorem notify_snapshot_rw (s₀ : NSt) (h0 : Inv s₀) (progs : Nat → List ROp) (hok : ∀ t op, op ∈ progs t → OpOk op)
+    (sch : List Nat) (c : RW.Config NSt ROp PC RRes) (he : RW.exec sys isRead (RW.init s₀ progs) sch = some c)
+    (pre post : List (Nat × ROp)) (t : Nat) (raw : List Nat)
+    (hacq : c.acq = pre ++ (t, .collect raw) :: post) (hidle : (c.threads t).cur = none) :
+    let sL := (seqExec rrun s₀ pre).2
+    Inv sL ∧
+    (∃ before after, (c.threads t).res = before ++ RRes.table (collectTbl sL raw) :: after) ∧
+    sortTbl (collectTbl sL raw) = notify sL raw ∧
+    (targetsOf (notify sL raw)).Nodup ∧ (notify sL raw).Pairwise (fun a b => a.1 ≥ b.1) := by
+  intro sL
+  obtain ⟨_, hres, hord, _⟩ := concurrent_registry_linearizable_rw s₀ progs sch c he
+  have hopok : ∀ x ∈ pre, OpOk x.2 := by
+    intro x hx
+    obtain ⟨u, op⟩ := x
+    apply hok u op
+    rw [← hord u]
+    exact List.mem_append_left _ (mem_opsOf u op _ (by rw [hacq]; simp [hx]))
+  refine ⟨inv_seqExec pre s₀ h0 hopok, ?_, sortTbl_collectTbl sL raw, nodup_targets_notify sL raw,
+    sorted_notify sL raw⟩
+  rw [hres t hidle, hacq, RW.seqExec_app]
+  simp only [seqExec, resOf_append]
+  refine ⟨resOf t (seqExec rrun s₀ pre).1, resOf t (seqExec rrun sL post).1, ?_⟩
+  show _ ++ resOf t ((t, ROp.collect raw, RRes.table (collectTbl sL raw)) :: (seqExec rrun sL post).1) = _
+  simp [resOf]
+
+/-- the RW machine really lets readers overlap, and keeps writers out: two goroutines are inside the ancestor walk of
+    `Notify("a")` at the same time (a schedule of the RW machine, not of the exclusive machine); a `Register` can not
+    enter while they are inside, nor they while it is -/
+theorem readers_overlap :
+    (RW.exec sys isRead (RW.init {} rwProgs) [0, 1, 0, 1]).map (fun c => (c.readers, c.writer)) = some ([1, 0], none) ∧
+    (Mutex.exec sys true (Mutex.init {} rwProgs) [0, 1]).isNone = true ∧
+    (RW.exec sys isRead (RW.init {} rwProgs) [0, 1, 2]).isNone = true ∧
+    (RW.exec sys isRead (RW.init {} rwProgs) [2, 0]).isNone = true ∧
+    (RW.exec sys isRead (RW.init {} rwProgs) [2, 2, 2, 2, 2, 0, 1, 1, 0, 0, 1, 1, 0, 0, 1]).map
+      (fun c => ((c.threads 0).res, (c.threads 1).res)) =
+        some ([RRes.table [(5, 1)]], [RRes.table [(5, 1)]]) := by
+  decide
+
+/-- the read-only premise is needed: with `Register` / `Unregister` (wrongly) under the read half, the schedule of
+    `unlocked_not_linearizable` is a schedule of the RW machine and ends in the registry no order of the two calls
+    produces (t5 registered for "b" but not for "a") -/
+theorem write_under_read_lock_not_linearizable :
+    (RW.exec sys isReadWrong (RW.init {} raceProgs) raceSchedule).map
+      (fun c => (raceObs c.shared, c.readers, c.writer)) = some ((none, some 1, true), [], none) ∧
+    (RW.exec sys isRead (RW.init {} raceProgs) raceSchedule).isNone = true := by
+  decide
+
 end concurrent
 
 end C17
